@@ -85,6 +85,7 @@ func startSession(c *mon.Case) (*session, error) {
 	}
 	cmd := exec.Command(bin, "-lsp")
 	cmd.Dir = lspDir
+	cmd.Env = os.Environ() // exactly the harness's variables ($E: completion lists their names)
 	cmd.Stderr = ef
 	cmd.SysProcAttr = &syscall.SysProcAttr{Pdeathsig: syscall.SIGKILL}
 	stdin, err := cmd.StdinPipe()
@@ -600,6 +601,18 @@ func pickPosition(r *rand.Rand, d *document) (p lsp.Position, off int, exact boo
 	case x < 16:
 		l := r.Intn(nl)
 		pe := ref.posOf(ref.ends[l])
+		if r.Intn(2) == 0 {
+			// one past the end of a line: "inside" the line break (between CR
+			// and LF if the line ends in CRLF)
+			for k := 0; k < nl; k++ {
+				l2 := (l + k) % nl
+				if e := ref.ends[l2]; e+1 < len(d.text) && d.text[e] == '\r' && d.text[e+1] == '\n' {
+					pe2 := ref.posOf(e)
+					return lsp.Position{Line: l2, Character: pe2.Char + 1}, 0, false, "inside-crlf"
+				}
+			}
+			return lsp.Position{Line: l, Character: pe.Char + 1}, 0, false, "one-past-line-end"
+		}
 		return lsp.Position{Line: l, Character: pe.Char + 1 + r.Intn(1000)}, 0, false, "past-line-end"
 	case x < 17:
 		return lsp.Position{Line: nl + r.Intn(1000), Character: r.Intn(50)}, 0, false, "past-last-line"
@@ -854,7 +867,7 @@ func runSession(c *mon.Case) {
 	versions := map[string]int{}
 	var open []string
 	lastURI := ""
-	steps := 30
+	steps := 60
 	for st := 0; st < steps; st++ {
 		k := r.Intn(20)
 		if len(open) == 0 {
@@ -1122,6 +1135,7 @@ func childSetup(e *mon.Env) {
 		os.WriteFile(filepath.Join(bin, n), []byte("#!/bin/sh\n"), 0o755)
 	}
 	os.Setenv("PATH", bin)
+	os.Setenv("PWD", own)
 	os.Chdir(own)
 	harnessEv = eval.NewEvaler()
 	_ = sort.Strings
@@ -1131,7 +1145,7 @@ func childSetup(e *mon.Env) {
 func Spec() *mon.Spec {
 	return &mon.Spec{
 		ID: "C44", Level: "exploration",
-		Rule: "session phase: case = one `elvish -lsp` subprocess driven over pipes (sourcegraph/jsonrpc2, VSCode codec) with initialize + 30 steps drawn from didOpen / full-text didChange (each followed by waiting for its publishDiagnostics) / hover / completion / requests that must be answered with an error / didClose, over documents of 0..30 lines mixing ASCII, BMP and astral characters with LF, CR and CRLF breaks (structured `command args` documents with a token table, and invalid Elvish built from adversarial pieces and mutations); positions are character boundaries, line starts/ends, past the line end, past the last line, between surrogate halves, huge. stress phase: 40..120 pipelined updates and requests without waiting. Non-trivial = session that reached its final round trip; distinct by case index and documents.",
+		Rule: "session phase: case = one `elvish -lsp` subprocess driven over pipes (sourcegraph/jsonrpc2, VSCode codec) with initialize + 60 steps drawn from didOpen / full-text didChange (each followed by waiting for its publishDiagnostics) / hover / completion / requests that must be answered with an error / didClose, over documents of 0..30 lines mixing ASCII, BMP and astral characters with LF, CR and CRLF breaks (structured `command args` documents with a token table, and invalid Elvish built from adversarial pieces and mutations); positions are character boundaries, line starts/ends, past the line end, past the last line, between surrogate halves, huge. stress phase: 40..120 pipelined updates and requests without waiting. Non-trivial = session that reached its final round trip; distinct by case index and documents.",
 		Assumptions: []string{
 			"requests without params and didChange with an empty change list are not sent (protocol-invalid, excluded by the property's scope)",
 			"positions that are not exact (past the end of a line, past the last line, between surrogate halves) are checked for liveness only; the LSP clamping rule is not demanded",
@@ -1142,14 +1156,14 @@ func Spec() *mon.Spec {
 			"order of notifications is not demanded in the pipelined phase (the property does not state it)",
 		},
 		Phases: []mon.Phase{
-			{Name: "session", Quick: 400, Thorough: 8000, Run: runSession, Timeout: 400 * time.Second},
-			{Name: "stress", Quick: 60, Thorough: 800, Run: runStress, Timeout: 400 * time.Second},
+			{Name: "session", Quick: 220, Thorough: 1500, Run: runSession, Timeout: 400 * time.Second},
+			{Name: "stress", Quick: 50, Thorough: 300, Run: runStress, Timeout: 400 * time.Second},
 		},
 		ChildSetup: childSetup,
-		Floors: map[string]int{"sessions_completed": 250, "diagnostics_notifications_checked": 1200, "diagnostic_ranges_checked": 700,
+		Floors: map[string]int{"sessions_completed": 150, "diagnostics_notifications_checked": 1200, "diagnostic_ranges_checked": 700,
 			"diagnostic_ranges_beyond_first_line": 350, "diagnostic_ranges_nonempty": 350, "hover_positions_checked": 250, "hover_on_documented_symbol": 150,
 			"hover_after_non_ascii": 40, "completion_positions_checked": 600, "completion_ranges_checked": 300, "completion_ranges_after_non_ascii": 40,
-			"documents_with_crlf": 800, "documents_with_lone_cr": 600, "documents_with_astral": 700, "pipelined_notifications_matched": 700,
-			"pipelined_requests_answered": 700, "error_probe_requests": 150},
+			"documents_with_crlf": 800, "documents_with_lone_cr": 600, "documents_with_astral": 700, "pipelined_notifications_matched": 600,
+			"pipelined_requests_answered": 600, "error_probe_requests": 150},
 	}
 }
